@@ -14,6 +14,16 @@
 //! of) on the simulated OS and — in a child process of this binary — on the
 //! real OS; stdout, exit status and the resulting files are compared.
 //!
+//! Stream 3 (scripts of real built-ins only): additionally run by the `yash3`
+//! binary built from the repository under test; the simulated run must equal
+//! the binary's run, and the harness's real shell must equal it too.
+//!
+//! Nine classes of inputs on which the simulator is known to deviate (findings
+//! F22-F30 in /verif/known_findings.json) are generated like everything else;
+//! a case that really contains an input of a class carries the class name as a
+//! tag, and the driver turns a failing tagged case into KNOWN-FINDING while the
+//! finding is open.  One minimal corpus case per class runs on every run.
+//!
 //! Other modes of the binary (used internally / for replay by hand):
 //!   c19 --real-sys-worker SEED TIER FROM TO SCRATCH
 //!   c19 --real-shell SCRIPT          (cwd = scratch root)
@@ -23,7 +33,7 @@ use std::cell::{Cell, RefCell};
 use std::collections::{BTreeMap, BTreeSet};
 use std::ffi::CString;
 use std::future::Future;
-use std::io::{Read as _, SeekFrom, Write as _};
+use std::io::{Read as _, SeekFrom};
 use std::ops::ControlFlow::{Break, Continue};
 use std::os::unix::fs::PermissionsExt;
 use std::pin::Pin;
@@ -1178,9 +1188,10 @@ fn run_sys_real(case: &SysCase, dir: &str) {
 // ---------------------------------------------------------------------------
 
 /// Classes of inputs on which VirtualSystem is known to deviate from the real
-/// system (genuine findings, reported).  A class listed in
-/// props/C19.json "excluded_findings" is kept out of the generated inputs; all
-/// others are generated and tagged with the class name.
+/// system (findings F22-F30 of /verif/known_findings.json; tag = class name).
+/// `true` = this case stays clear of the class.  The driver decides what a
+/// failing tagged case means (KNOWN-FINDING while the finding is open); a
+/// tagged case that passes is an ordinary passing case.
 #[derive(Clone, Copy, Debug, Default)]
 struct Excl {
     /// VirtualSystem::opendir leaves a descriptor open
@@ -1203,29 +1214,48 @@ struct Excl {
     ignore_keeps_pending: bool,
 }
 
-fn excl_config() -> Excl {
-    let path = std::env::var("YV_C19_PROPS").unwrap_or_else(|_| "/verif/props/C19.json".to_string());
-    let text = std::fs::read_to_string(&path).unwrap_or_default();
-    // the value of "excluded_findings": [ "a", "b" ]
-    let list = text
-        .split("\"excluded_findings\"")
-        .nth(1)
-        .and_then(|s| s.split('[').nth(1))
-        .and_then(|s| s.split(']').next())
-        .unwrap_or("")
-        .to_string();
-    let has = |n: &str| list.contains(&format!("\"{n}\""));
-    let all = std::env::var("YV_C19_FINDINGS").is_ok();
+impl Excl {
+    /// every class kept out (the plain generators)
+    fn all() -> Excl {
+        Excl {
+            opendir_fd_leak: true,
+            creat_dotdot: true,
+            getcwd_unnormalized: true,
+            dot_after_file: true,
+            open_dir_for_writing: true,
+            dup2_same_fd: true,
+            creat_missing_parent: true,
+            killed_process_keeps_running: true,
+            ignore_keeps_pending: true,
+        }
+    }
+}
+
+/// Which classes a generated case may touch.  Three cases out of four touch
+/// none (so that an unknown deviation is not attributed to a known class);
+/// the fourth may touch one class for sure and every other class with
+/// probability 1/4.  A case is tagged with a class only if it really contains
+/// an input of that class.
+fn excl_for(seed: u64, idx: usize, salt: u64) -> Excl {
+    let mut r = Rng::new(seed ^ salt).fork(idx as u64);
+    if !r.chance(1, 4) {
+        return Excl::all();
+    }
+    let sure = r.below(9);
+    let mut keep = [true; 9];
+    for (i, k) in keep.iter_mut().enumerate() {
+        *k = !(i == sure || r.chance(1, 4));
+    }
     Excl {
-        opendir_fd_leak: has("opendir-fd-leak") && !all,
-        creat_dotdot: has("creat-dotdot") && !all,
-        getcwd_unnormalized: has("getcwd-unnormalized") && !all,
-        dot_after_file: has("dot-after-file") && !all,
-        open_dir_for_writing: has("open-dir-for-writing") && !all,
-        dup2_same_fd: has("dup2-same-fd") && !all,
-        creat_missing_parent: has("creat-missing-parent") && !all,
-        killed_process_keeps_running: has("killed-process-keeps-running") && !all,
-        ignore_keeps_pending: has("ignore-keeps-pending") && !all,
+        opendir_fd_leak: keep[0],
+        creat_dotdot: keep[1],
+        getcwd_unnormalized: keep[2],
+        dot_after_file: keep[3],
+        open_dir_for_writing: keep[4],
+        dup2_same_fd: keep[5],
+        creat_missing_parent: keep[6],
+        killed_process_keeps_running: keep[7],
+        ignore_keeps_pending: keep[8],
     }
 }
 
@@ -1245,6 +1275,8 @@ struct ProcT {
     mask: BTreeSet<usize>,
     pend: BTreeSet<usize>,
     caught: BTreeSet<usize>,
+    /// descriptors with close-on-exec set
+    cx: BTreeSet<i32>,
 }
 
 /// What the generator believes about the state (only used to produce mostly
@@ -1260,6 +1292,11 @@ struct Tracker {
 }
 
 impl Tracker {
+    fn hit(&mut self, tag: &'static str) {
+        if !self.hit.contains(&tag) {
+            self.hit.push(tag);
+        }
+    }
     fn new(tree: &InitTree) -> Tracker {
         let mut dirs = BTreeSet::new();
         let mut files = BTreeSet::new();
@@ -1284,6 +1321,7 @@ impl Tracker {
                 mask: BTreeSet::new(),
                 pend: BTreeSet::new(),
                 caught: BTreeSet::new(),
+                cx: BTreeSet::new(),
             }],
         }
     }
@@ -1500,12 +1538,20 @@ fn gen_op(r: &mut Rng, t: &mut Tracker, x: &Excl, ops: &mut Vec<Op>, depth: usiz
                 let sig = r.below(5);
                 match r.below(7) {
                     0 | 1 => {
-                        let d = *r.pick(&[Disp::Catch, Disp::Catch, Disp::Ignore, Disp::Default]);
+                        let mut d = *r.pick(&[Disp::Catch, Disp::Catch, Disp::Ignore, Disp::Default]);
+                        let mut sig = sig;
+                        if !x.ignore_keeps_pending && r.chance(1, 2) {
+                            // the class: "ignore" for a signal that is pending
+                            if let Some(s) = t.cur().pend.iter().next().copied() {
+                                sig = s;
+                                d = Disp::Ignore;
+                            }
+                        }
                         if d == Disp::Ignore && t.cur().pend.contains(&sig) {
                             if x.ignore_keeps_pending {
                                 continue;
                             }
-                            t.hit.push("ignore-keeps-pending");
+                            t.hit("ignore-keeps-pending");
                         }
                         let p = t.cur_mut();
                         p.disp[sig] = d;
@@ -1618,13 +1664,35 @@ fn gen_op(r: &mut Rng, t: &mut Tracker, x: &Excl, ops: &mut Vec<Op>, depth: usiz
                 let is_dir = t.dirs.contains(&target);
                 let parent_ok = !target.is_empty() && t.dirs.contains(&target[..target.len() - 1].to_vec());
                 let (rd, wr) = (acc != Acc::Wr, acc != Acc::Rd);
-                if is_file && !(fl.creat && fl.excl) && !fl.dir {
-                    t.install(OfdKind::Reg, rd, wr);
+                // classes of known deviations this call is in
+                if class == PathClass::DotAfterFile {
+                    t.hit("dot-after-file");
+                } else if is_dir && wr {
+                    t.hit("open-dir-for-writing");
+                } else if !is_file && !is_dir && fl.creat {
+                    if !parent_ok {
+                        t.hit("creat-missing-parent");
+                    } else if p.split('/').any(|c| c == "..") {
+                        t.hit("creat-dotdot");
+                    }
+                }
+                let mut newfd = None;
+                if class == PathClass::DotAfterFile {
+                    // fails on a POSIX system
+                } else if is_file && !(fl.creat && fl.excl) && !fl.dir {
+                    newfd = Some(t.install(OfdKind::Reg, rd, wr));
                 } else if is_dir && !wr && !fl.creat {
-                    t.install(OfdKind::Dir, true, false);
+                    newfd = Some(t.install(OfdKind::Dir, true, false));
                 } else if !is_file && !is_dir && parent_ok && fl.creat && !p.ends_with('/') {
                     t.files.insert(target);
-                    t.install(OfdKind::Reg, rd, wr);
+                    newfd = Some(t.install(OfdKind::Reg, rd, wr));
+                }
+                if let Some(fd) = newfd {
+                    if fl.cloexec {
+                        t.cur_mut().cx.insert(fd);
+                    } else {
+                        t.cur_mut().cx.remove(&fd);
+                    }
                 }
                 ops.push(Op::Open(p, acc, fl, mode));
                 return;
@@ -1632,27 +1700,49 @@ fn gen_op(r: &mut Rng, t: &mut Tracker, x: &Excl, ops: &mut Vec<Op>, depth: usiz
             22..=29 => {
                 let fd = pick_fd(r, t);
                 t.cur_mut().fds.remove(&fd);
+                t.cur_mut().cx.remove(&fd);
                 ops.push(Op::Close(fd));
                 return;
             }
             30..=37 => {
                 let fd = pick_fd(r, t);
                 let min = *r.pick(&[0, 0, 3, 5, 10, 10, 12]);
+                let cx = r.chance(1, 3);
                 if let Some(id) = t.cur().fds.get(&fd).copied() {
                     let n = t.lowest_free(min);
                     t.cur_mut().fds.insert(n, id);
+                    if cx {
+                        t.cur_mut().cx.insert(n);
+                    } else {
+                        t.cur_mut().cx.remove(&n);
+                    }
                 }
-                ops.push(Op::Dup(fd, min, r.chance(1, 3)));
+                ops.push(Op::Dup(fd, min, cx));
                 return;
             }
             38..=45 => {
                 let fd = pick_fd(r, t);
-                let to = if r.chance(1, 2) { pick_fd(r, t) } else { r.below(14) as i32 };
-                if x.dup2_same_fd && to == fd {
-                    continue;
+                let mut to = if r.chance(1, 2) { pick_fd(r, t) } else { r.below(14) as i32 };
+                if !x.dup2_same_fd && r.chance(1, 3) {
+                    to = fd;
+                }
+                if to == fd {
+                    if x.dup2_same_fd {
+                        continue;
+                    }
+                    if t.cur().fds.contains_key(&fd) && t.cur().cx.contains(&fd) {
+                        // POSIX: nothing changes; the simulator clears close-on-exec
+                        t.hit("dup2-same-fd");
+                    }
+                    ops.push(Op::Dup2(fd, to));
+                    if r.chance(1, 2) {
+                        ops.push(Op::Getfd(fd));
+                    }
+                    return;
                 }
                 if let Some(id) = t.cur().fds.get(&fd).copied() {
                     t.cur_mut().fds.insert(to, id);
+                    t.cur_mut().cx.remove(&to);
                 }
                 ops.push(Op::Dup2(fd, to));
                 return;
@@ -1709,6 +1799,7 @@ fn gen_op(r: &mut Rng, t: &mut Tracker, x: &Excl, ops: &mut Vec<Op>, depth: usiz
                 let mut class = *r.pick(&[PathClass::File, PathClass::Dir, PathClass::Missing, PathClass::ThroughFile, PathClass::New]);
                 if !x.dot_after_file && r.chance(1, 8) {
                     class = PathClass::DotAfterFile;
+                    t.hit("dot-after-file");
                 }
                 ops.push(Op::Stat(pick_path(r, t, class, Spell::Fancy).0));
                 return;
@@ -1723,6 +1814,10 @@ fn gen_op(r: &mut Rng, t: &mut Tracker, x: &Excl, ops: &mut Vec<Op>, depth: usiz
                 let (p, target) = pick_path(r, t, class, sp);
                 if t.dirs.contains(&target) {
                     t.cur_mut().cwd = target;
+                    if p != "/" && has_dots(&p) {
+                        // the simulator's getcwd shows the spelling
+                        t.hit("getcwd-unnormalized");
+                    }
                 }
                 ops.push(Op::Chdir(p));
                 return;
@@ -1744,7 +1839,12 @@ fn gen_op(r: &mut Rng, t: &mut Tracker, x: &Excl, ops: &mut Vec<Op>, depth: usiz
                     continue;
                 }
                 let class = *r.pick(&[PathClass::Dir, PathClass::Dir, PathClass::File, PathClass::Missing]);
-                ops.push(Op::Readdir(pick_path(r, t, class, Spell::Fancy).0));
+                let (p, target) = pick_path(r, t, class, Spell::Fancy);
+                if t.dirs.contains(&target) {
+                    // the simulator leaves a descriptor open
+                    t.hit("opendir-fd-leak");
+                }
+                ops.push(Op::Readdir(p));
                 return;
             }
             103 => {
@@ -1752,7 +1852,15 @@ fn gen_op(r: &mut Rng, t: &mut Tracker, x: &Excl, ops: &mut Vec<Op>, depth: usiz
                 return;
             }
             104 => {
-                ops.push(Op::Setfd(pick_fd(r, t), r.chance(1, 2)));
+                let (fd, cx) = (pick_fd(r, t), r.chance(1, 2));
+                if t.cur().fds.contains_key(&fd) {
+                    if cx {
+                        t.cur_mut().cx.insert(fd);
+                    } else {
+                        t.cur_mut().cx.remove(&fd);
+                    }
+                }
+                ops.push(Op::Setfd(fd, cx));
                 return;
             }
             105 => {
@@ -1809,7 +1917,7 @@ fn default_tree(r: &mut Rng) -> InitTree {
 }
 
 fn gen_sys_case(seed: u64, idx: usize, thorough: bool) -> SysCase {
-    let x = excl_config();
+    let x = excl_for(seed, idx, 0x5E1);
     let mut r = Rng::new(seed ^ 0xC19).fork(idx as u64);
     let tree = default_tree(&mut r);
     let umask = *r.pick(&[0o022, 0o022, 0o077, 0o002, 0]);
@@ -2168,23 +2276,26 @@ impl SGen<'_> {
             self.tags.push(t);
         }
     }
+    /// Pathname expansion in the main shell.  On the simulator every
+    /// directory that is read leaves a descriptor open (finding
+    /// opendir-fd-leak), which is only visible to a script that then refers to
+    /// a descriptor it has not opened: `self.globs` bounds the number of leaked
+    /// descriptors (at most 2 per expansion here), and the "descriptor 9 is
+    /// closed" tests are only generated while 3 + globs*2 <= 9.
     fn glob_ok(&mut self) -> bool {
-        if self.x.opendir_fd_leak {
-            // each pathname expansion leaks descriptors in the simulator; the
-            // never-opened descriptor used for error tests is 9
-            if self.globs >= 3 {
-                return false;
-            }
-        } else {
-            self.tag("opendir-fd-leak");
+        if self.globs >= 3 {
+            return false;
         }
         self.globs += 1;
         true
     }
+    fn fd9_is_closed(&self) -> bool {
+        3 + self.globs * 2 <= 9
+    }
 
     fn stmt(&mut self) -> String {
         loop {
-            let k = self.r.below(60);
+            let k = self.r.below(61);
             let (kind, s): (&'static str, String) = match k {
                 0 => ("redir-out", format!("echo {} > {}", self.word(), self.newfile())),
                 1 => ("redir-out", format!("echo {} > {}; echo {} >> {}", self.word(), "n1", self.word(), "n1")),
@@ -2217,8 +2328,8 @@ impl SGen<'_> {
                     let (n, f) = (self.fd(), self.file());
                     ("exec-fd-rw", format!("exec {n}<> {f}; echo {} >&{n}; read y <&{n}; echo \"[$y]\"; exec {n}>&-", self.word()))
                 }
-                13 => ("err-closed-fd", format!("echo {} >&9; echo $?", self.word())),
-                14 => ("err-closed-fd", "cat <&9; echo $?".to_string()),
+                13 if self.fd9_is_closed() => ("err-closed-fd", format!("echo {} >&9; echo $?", self.word())),
+                14 if self.fd9_is_closed() => ("err-closed-fd", "cat <&9; echo $?".to_string()),
                 15 => {
                     let (n, f) = (self.fd(), self.file());
                     ("fd-dup", format!("exec {n}< {f}; exec 8<&{n}; read a <&{n}; read b <&8; echo \"$a/$b\"; exec {n}<&- 8<&-"))
@@ -2247,7 +2358,7 @@ impl SGen<'_> {
                     if !self.glob_ok() {
                         continue;
                     }
-                    let pat = *self.r.pick(&["*", "d/*", "*/", "nomatch*", "[fg]", "?", "*/*", "e/k*", ".*"]);
+                    let pat = *self.r.pick(&["*", "d/*", "*/", "nomatch*", "[fg]", "?", "d/*/*", "e/k*", ".*"]);
                     ("glob", format!("echo {}{}", self.up(), pat))
                 }
                 21 => ("pipe", format!("echo {} | cat", self.word())),
@@ -2258,7 +2369,7 @@ impl SGen<'_> {
                 26 => ("cmdsubst", format!("v=$(cat < {}); echo \"<$v>\"", self.file())),
                 27 => ("cmdsubst", (*self.r.pick(&["echo \"$(echo a; echo b)\"", "v=$(exit 3); echo $?", "echo $(echo $(echo deep))", "echo \"$(echo x >&2)\"|cat"])).to_string()),
                 28 => ("cmdsubst-big", format!("v=$(cat < {}big); echo ${{#v}}", self.up())),
-                29 => ("subshell", (*self.r.pick(&["(exit 4); echo $?", "(exec 9> sub9.txt; echo z >&9); echo y >&9; echo $?", "(v=1; exit 0); echo \"[$v]\""])).to_string()),
+                29 => ("subshell", (*self.r.pick(&["(exit 4); echo $?", "(exec 3> sub3.txt; echo z >&3; exec 3>&-); echo $?", "(v=1; exit 0); echo \"[$v]\""])).to_string()),
                 30 => ("subshell-umask", format!("(umask 077; echo {} > {}); umask", self.word(), self.newfile())),
                 31 => ("trap-self-signal", (*self.r.pick(&[
                     "trap 'echo T1' USR1; kill -s USR1 $$; echo after",
@@ -2357,6 +2468,15 @@ impl SGen<'_> {
                     let f = self.newfile();
                     ("signal-default-from-child", format!("(kill -s TERM $$); echo x > {f}; echo unreachable"))
                 }
+                60 => {
+                    // a descriptor the script never opened, after a pathname expansion
+                    if self.x.opendir_fd_leak || self.globs > 0 {
+                        continue;
+                    }
+                    self.tag("opendir-fd-leak");
+                    self.globs += 3;
+                    ("fd-after-glob", format!("echo {}*; : <&3 && echo open || echo closed", self.up()))
+                }
                 58 => ("signal-default-self", (*self.r.pick(&[
                     // only signals whose numbers POSIX fixes (the simulator's other numbers differ)
                     "kill -s HUP $$; echo unreachable",
@@ -2381,7 +2501,7 @@ impl SGen<'_> {
 fn gen_script_case(seed: u64, idx: usize, thorough: bool) -> ScriptCase {
     let mut r = Rng::new(seed ^ 0x5C21).fork(idx as u64);
     let n = if thorough { 2 + r.below(8) } else { 2 + r.below(5) };
-    let mut g = SGen { r: &mut r, x: excl_config(), cwd: vec![], globs: 0, tags: vec![], kinds: vec![] };
+    let mut g = SGen { r: &mut r, x: excl_for(seed, idx, 0x5C2), cwd: vec![], globs: 0, tags: vec![], kinds: vec![] };
     let mut lines = vec![];
     if g.r.chance(1, 4) {
         // start below the root so that `..` spellings are exercised
@@ -2524,7 +2644,15 @@ fn emit_script3(w: &mut CasesWriter, case: &ScriptCase, v: &ScriptObs, r: &Scrip
 
 fn corpus_scripts() -> Vec<ScriptCase> {
     let mk = |s: &str| ScriptCase { tree: tree_for(s), script: s.to_string(), tags: vec![], kinds: vec!["corpus"] };
+    let mk_tagged = |tag: &'static str, s: &str| ScriptCase {
+        tree: tree_for(s),
+        script: s.to_string(),
+        tags: vec![tag],
+        kinds: vec!["corpus"],
+    };
     vec![
+        // known deviation of the simulator (F28): the killed shell runs on
+        mk_tagged("killed-process-keeps-running", "(kill -s TERM $$); echo x > n1"),
         // F6: the simulated fork did not copy umask / cwd
         mk("umask 077; (umask); cd d; (pwd); (echo x > made); umask"),
         // F8: wait for any child while an older child is still alive
@@ -2567,7 +2695,6 @@ fn emit_script(w: &mut CasesWriter, case: &ScriptCase, v: &ScriptObs, r: &Script
 // ---------------------------------------------------------------------------
 
 fn corpus_sys() -> Vec<SysCase> {
-    let mut r = Rng::new(7);
     let tree = {
         let mut r0 = Rng::new(0);
         let mut t = default_tree(&mut r0);
@@ -2575,7 +2702,6 @@ fn corpus_sys() -> Vec<SysCase> {
         t[3].1 = Some(b"hello\n".to_vec());
         t
     };
-    let _ = &mut r;
     let fl = Flags::default();
     let mk = |ops: Vec<Op>| SysCase { tree: tree.clone(), umask: 0o022, ops, tags: vec![] };
     let mk_tagged = |tag: &'static str, ops: Vec<Op>| SysCase { tree: tree.clone(), umask: 0o022, ops, tags: vec![tag] };
@@ -2673,6 +2799,17 @@ fn corpus_sys() -> Vec<SysCase> {
             Op::Caught,
             Op::Sigaction(0, Disp::Default),
         ]),
+        // ---- one minimal case per known deviation of the simulator (F22-F30) ----
+        mk_tagged("opendir-fd-leak", vec![Op::Readdir("d".into()), Op::Open("f".into(), Acc::Rd, fl, 0)]),
+        mk_tagged("creat-dotdot", vec![Op::Open("d/../n1".into(), Acc::Wr, Flags { creat: true, ..fl }, 0o666)]),
+        mk_tagged("creat-missing-parent", vec![Op::Open("zz/x".into(), Acc::Wr, Flags { creat: true, ..fl }, 0o666)]),
+        mk_tagged("getcwd-unnormalized", vec![Op::Chdir("d/.".into()), Op::Getcwd]),
+        mk_tagged("dot-after-file", vec![Op::Stat("f/.".into())]),
+        mk_tagged("open-dir-for-writing", vec![Op::Open("d".into(), Acc::Wr, fl, 0)]),
+        mk_tagged(
+            "dup2-same-fd",
+            vec![Op::Open("f".into(), Acc::Rd, Flags { cloexec: true, ..fl }, 0), Op::Dup2(3, 3), Op::Getfd(3)],
+        ),
         // a pending signal is discarded when its action is set to "ignore"
         mk_tagged("ignore-keeps-pending", vec![
             Op::Sigaction(3, Disp::Catch),
@@ -2708,65 +2845,13 @@ fn corpus_sys() -> Vec<SysCase> {
 // running the real side in worker processes
 // ---------------------------------------------------------------------------
 
-/// (approximation used for tagging only) the path names one of the
-/// directories of the initial tree
-fn is_init_dir(p: &str) -> bool {
-    let comps: Vec<&str> = p.split('/').filter(|c| !c.is_empty() && *c != ".").collect();
-    let mut out: Vec<&str> = vec![];
-    for c in comps {
-        if c == ".." {
-            out.pop();
-        } else {
-            out.push(c);
-        }
-    }
-    matches!(out.as_slice(), [] | ["d"] | ["d", "s"] | ["e"] | [.., "d"] | [.., "s"] | [.., "e"])
-}
-
-fn dot_after_file(p: &str) -> bool {
-    let comps: Vec<&str> = p.split('/').filter(|c| !c.is_empty()).collect();
-    comps.windows(2).any(|w| {
-        matches!(w[0], "f" | "g" | "h" | "k" | "deep" | "n1" | "n2" | "new" | "o.txt") && (w[1] == "." || w[1] == "..")
-    })
-}
-
 fn has_dots(p: &str) -> bool {
     p.split('/').any(|c| c == "." || c == "..") || p.contains("//") || p.ends_with('/')
 }
 
 fn sys_case(seed: u64, idx: usize, thorough: bool) -> SysCase {
-    let x = excl_config();
     let c = corpus_sys();
-    let mut case = if idx < c.len() { c[idx].clone() } else { gen_sys_case(seed, idx, thorough) };
-    if x.opendir_fd_leak {
-        case.ops.retain(|o| !matches!(o, Op::Readdir(_)));
-    }
-    if x.ignore_keeps_pending && case.tags.contains(&"ignore-keeps-pending") {
-        // (corpus case of an excluded class)
-        case.ops.clear();
-        case.tags.clear();
-    }
-    // classes of known deviations of the simulator that this case touches
-    let mut tags = case.tags.clone();
-    for op in &case.ops {
-        let tag = match op {
-            Op::Readdir(_) => Some("opendir-fd-leak"),
-            Op::Dup2(a, b) if a == b => Some("dup2-same-fd"),
-            Op::Open(p, _, f, _) if f.creat && p.split('/').any(|c| c == "..") => Some("creat-dotdot"),
-            Op::Chdir(p) if has_dots(p) => Some("getcwd-unnormalized"),
-            Op::Open(p, a, _, _) if *a != Acc::Rd && is_init_dir(p) => Some("open-dir-for-writing"),
-            Op::Open(p, ..) | Op::Stat(p) if dot_after_file(p) => Some("dot-after-file"),
-            Op::Open(p, _, f, _) if f.creat && p.contains("zz/") => Some("creat-missing-parent"),
-            _ => None,
-        };
-        if let Some(tag) = tag {
-            if !tags.contains(&tag) {
-                tags.push(tag);
-            }
-        }
-    }
-    case.tags = tags;
-    case
+    if idx < c.len() { c[idx].clone() } else { gen_sys_case(seed, idx, thorough) }
 }
 
 /// `c19 --real-sys-worker SEED TIER FROM TO RUNDIR`
@@ -2904,7 +2989,7 @@ fn real_sys_all(args: &Args, n: usize, run: &str) -> BTreeMap<usize, SysObs> {
                     .arg(&run)
                     .env_clear();
                 // the worker regenerates the sequences: same generator configuration
-                for k in ["YV_C19_FINDINGS", "YV_C19_PROPS", "YV_C19_SCRATCH"] {
+                for k in ["YV_C19_SCRATCH"] {
                     if let Ok(v) = std::env::var(k) {
                         cmd.env(k, v);
                     }
@@ -3031,7 +3116,8 @@ fn main() {
         std::process::exit(0);
     }
     let args = Args::parse();
-    let mut w = CasesWriter::new(&args, "Yv.C19.Run", 60);
+    // quick: one wave of 16 shards; thorough: many small shards
+    let mut w = CasesWriter::new(&args, "Yv.C19.Run", if args.thorough() { 80 } else { 74 });
     let run = format!("{}/{}/{}-{}", scratch_base(), args.seed, args.tier, std::process::id());
     std::fs::create_dir_all(&run).unwrap();
 
@@ -3073,6 +3159,8 @@ fn main() {
         emit_script3(&mut w, case, &v, &reals3[i], &yash3s[i]);
     }
     let _ = std::fs::remove_dir_all(&run);
+    // (the per-seed directory too, if no other run is using it)
+    let _ = std::fs::remove_dir(format!("{}/{}", scratch_base(), args.seed));
     w.finish(
         "stream 1: random system-call sequences (4-40 calls, up to 2 nested forks) on a fixed small \
          tree, run on VirtualSystem and RealSystem; non-trivial = at least 5 calls succeeded and at \
